@@ -8,6 +8,7 @@ import (
 	kruiseappsv1alpha1 "github.com/openkruise/kruise-api/apps/v1alpha1"
 	rolloutsv1beta1 "github.com/openkruise/rollouts/api/v1beta1"
 	apps "k8s.io/api/apps/v1"
+	corev1 "k8s.io/api/core/v1"
 	metav1 "k8s.io/apimachinery/pkg/apis/meta/v1"
 	"k8s.io/apimachinery/pkg/runtime"
 	utilpointer "k8s.io/utils/pointer"
@@ -227,6 +228,25 @@ func AllUserActions() []*UserAction {
 				return w.Raw.Delete(context.TODO(), getRollout(w, sc))
 			},
 			After: func(mon MonState) { mon["req.exit"] = "delete" }},
+		{Name: "degrade", OneShot: true, // an updated, ready pod turns unready (environment disturbance)
+			Guard: func(w *World, sc *Scenario, mon MonState) bool {
+				v := ViewWorkload(w, sc)
+				return inProgress(getRollout(w, sc)) && v != nil && v.UpdatedReady > 0 && v.Image != "app:v1"
+			},
+			Do: func(w *World, sc *Scenario) error {
+				v := ViewWorkload(w, sc)
+				for _, o := range w.Store.PeekAll("pods") {
+					p := o.(*corev1.Pod)
+					if p.Namespace == sc.ns() && podRev(p) == v.UpdateRev && isPodReady(p) {
+						c := p.DeepCopy()
+						setPodReady(c, false)
+						c.Annotations = map[string]string{"verif/degraded": "true"}
+						return w.Raw.Update(context.TODO(), c)
+					}
+				}
+				return fmt.Errorf("no pod to degrade")
+			},
+			After: func(mon MonState) { mon["req.degrade"] = "1" }},
 		jump(-1), jump(0), jump(1), jump(2), jump(3), jump(4), jump(2147483647),
 	}
 	return acts
@@ -315,3 +335,34 @@ func getWorkload(w *World, sc *Scenario) runtime.Object {
 }
 
 var _ = metav1.Now
+
+// ControlState abstracts a state to the cursors of the three state machines plus workload progress:
+// (rollout phase, progressing reason, step cursor, finalising step, BatchRelease phase/batch/state,
+// exposure knob, updated / updated-ready pods). User deviations are injected once per control state.
+func ControlState(w *World, sc *Scenario) string {
+	ro := getRollout(w, sc)
+	var sb strings.Builder
+	if ro != nil {
+		idx, st, next, _ := StepCursor(ro)
+		fin := ""
+		if ro.Status.CanaryStatus != nil {
+			fin = string(ro.Status.CanaryStatus.FinalisingStep)
+		} else if ro.Status.BlueGreenStatus != nil {
+			fin = string(ro.Status.BlueGreenStatus.FinalisingStep)
+		}
+		fmt.Fprintf(&sb, "ro:%s/%s/%d/%s/%d/%s/p%v/d%v/del%v", ro.Status.Phase, progressingReason(ro), idx, st, next, fin, ro.Spec.Strategy.Paused, ro.Spec.Disabled, ro.DeletionTimestamp != nil)
+	}
+	br := &rolloutsv1beta1.BatchRelease{}
+	if w.Get(br, sc.ns(), AppName) {
+		bp := int32(-1)
+		if br.Spec.ReleasePlan.BatchPartition != nil {
+			bp = *br.Spec.ReleasePlan.BatchPartition
+		}
+		fmt.Fprintf(&sb, "|br:%s/%d/%s/bp%d/del%v", br.Status.Phase, br.Status.CanaryStatus.CurrentBatch, br.Status.CanaryStatus.CurrentBatchState, bp, br.DeletionTimestamp != nil)
+	}
+	v := ViewWorkload(w, sc)
+	if v != nil {
+		fmt.Fprintf(&sb, "|wl:r%d/e%d/u%d/ur%d/%s/ctl%v", v.Replicas, v.Exposure, v.Updated, v.UpdatedReady, v.Image, v.Controlled)
+	}
+	return sb.String()
+}
